@@ -37,8 +37,24 @@ func isPositional(err error) (pos int, ok bool, build bool) {
 	return 0, false, false
 }
 
-// checkRender verifies the window / caret / message layout of a bound error.
+// checkRender verifies the window / caret / message layout of a bound error
+// (checkRenderOnce), then, then changes the padding of the SAME
+// error and verifies it again: what was shown before must not stick.
 func checkRender(q string, err error, pos int, pad int, setPad bool) string {
+	if m := checkRenderOnce(q, err, pos, pad, setPad); m != "" {
+		return m
+	}
+	pad2 := pad + 5
+	if pad >= 12 {
+		pad2 = 2
+	}
+	if m := checkRenderOnce(q, err, pos, pad2, true); m != "" {
+		return "after the padding of the same error was changed from " + fmt.Sprint(pad) + ": " + m
+	}
+	return ""
+}
+
+func checkRenderOnce(q string, err error, pos int, pad int, setPad bool) string {
 	if q == "" {
 		return "" // nothing to show for the empty text (binding it is a no-op)
 	}
